@@ -3,7 +3,7 @@
    asks for [chunk] bytes at a time.  Result + number of bytes not yet handed to the caller. *)
 From Coq Require Import List NArith Arith Bool.
 From NV Require Import Io.Source Io.ReadExact Io.BufReader Io.Run Trunc.Stream Trunc.Cram Bgzf.Crc32
-  Io.Prog Io.IndexProg Io.ProgCram.
+  Io.Prog Io.IndexProg Io.ProgCram Io.CsiProg Io.HeaderRead Io.HeaderAdapter.
 From NV Require Index.Layout Index.TextIndex.
 Import ListNotations.
 Local Open Scope nat_scope.
@@ -47,3 +47,27 @@ Definition run_bcf (tab : list (list N * nat)) (cap chunk : nat) (s : source) :=
 
 Definition run_cram (cap chunk : nat) (s : source) :=
   run_prog cap chunk (p_cram_containers crc32 (Datatypes.S (length (s_data s)))) s.
+
+(* csi::io::reader::index::read_header (the header of a tabix index; the aux block of a CSI index) *)
+Definition run_csi_header (cap chunk : nat) (s : source) := run_prog cap chunk g_header s.
+
+(* ---- the SAM / VCF header adapter used as a plain Read (header_reader().read(..)) *)
+(* a sequence of read calls with buffers of the given sizes: what each returns, bytes left *)
+Fixpoint h_reads (cap : nat) (prefix : N) (sizes : list nat) (hs : hstate (S := source))
+  : list rres * hstate (S := source) :=
+  match sizes with
+  | [] => ([], hs)
+  | n :: t =>
+      let '(r, hs1) := h_read src_read cap prefix hs n in
+      let '(l, hs2) := h_reads cap prefix t hs1 in (r :: l, hs2)
+  end.
+
+Definition run_hdr_reads (prefix : N) (cap : nat) (sizes : list nat) (s : source) : list rres * nat :=
+  let '(l, hs) := h_reads cap prefix sizes (true, ([], s)) in (l, b_left (snd hs)).
+
+(* read_to_end on the adapter, asking for [chunk] bytes at a time: the bytes, bytes left *)
+Definition run_hdr_read_to_end (prefix : N) (cap chunk : nat) (s : source) : cres (list N) * nat :=
+  let f0 := n_interrupted (s_script s) in
+  let '(r, hs) := run_raw (h_read src_read cap prefix) (fun _ => chunk) (fun _ n => f0 + n + 1)
+                    (Take (Datatypes.S (length (s_data s))) (fun bs => Ret bs)) (true, ([], s)) in
+  (cres_of r, b_left (snd hs)).
